@@ -48,7 +48,8 @@ CHECKS = {
 
 WORLD_NOTE = ("Model/World.v is a hand transcription of the ownership code (ListWrapper/SetWrapper subclasses, parent setters, UUID table, symbol indexes, "
               "LazyIntervalTree, lookup helpers); theorems quantify over every state reachable by any history of operations inside the executable typing guard "
-              "WorldGuard.op_okb (the static types of the API + pairwise distinct UUIDs). intervaltree / sortedcontainers are modelled by their abstract behaviour. ")
+              "WorldGuard.op_okb (the static types of the API + pairwise distinct UUIDs). intervaltree / sortedcontainers are modelled by their abstract behaviour. "
+              "The correspondence histories continue now and then on a deep copy / pickle round trip of every object (harness item 49, a no-op for the model: a copy of a state is that state). ")
 PROTO_NOTE = ("Model/Proto.v transcribes every _to_protobuf/_decode_protobuf pair at message level with the staged decode order and the kind checks of the per-IR UUID table; "
               "the protobuf wire codec (Parse(Serialize(m)) = m, range checks, presence) is the runtime's and is trusted; enum tables and schema are regenerated from /repo on every run. ")
 
